@@ -571,10 +571,34 @@ def subcomponent_level(v, seg, name, ref, spath, res, point):
             res.violation('subcomponent-edit-raises|%s|%s|%s' % (v, seg, exc_class(e)), 'subcomponent-level edit of %s.%s.%s in %s (v%s): %s: %s'
                           % (fr.name, cr.name, sr.name, name, v, exc_class(e), e), pt, 3)
             continue
-        res.evaluations += 6
-        res.transitions += 12
-        res.validated += 5
-        for how in ('traversal-read', 'traversal-write', 'parse-tolerant', 'parse-strict', 'text-assignment'):
+        # the component itself given another complex datatype by the profile: the positional path <field>_<j>_1 names its
+        # first subcomponent after the datatype the profile says
+        structs = libs()[v].DATATYPES_STRUCTS
+        other = [d for d in ('CE', 'HD', 'CWE', 'CX', 'XPN') if d in structs and d != cr.datatype and tables.datatype_rows(v, d) and
+                 tables.datatype_rows(v, d)[0].kind == 'leaf']
+        if other:
+            ndt = other[0]
+
+            def retype(c, ndt=ndt):
+                r = list(c[1])
+                return (c[0], ('sequence', structs[ndt], ndt) + tuple(r[3:]), c[2], c[3])
+            try:
+                cprof = {name: edit_path(ref, spath + (fr.name, cr.name), retype)}
+                m = Message(name, version=v, reference=cprof)
+                fld = getattr(nav(m), fr.name.lower())
+                j = tables.comp_index(cr.name)
+                setattr(fld, '%s_%d_1' % (fr.name.lower(), j), 'v')
+                comp = getattr(getattr(nav(m), fr.name.lower()), cr.name.lower())[0]
+                obs['positional-under-retyped-component'] = new_dt if (comp.datatype == ndt and [x.name for x in comp.children] == ['%s_1' % ndt]) \
+                    else '%s with children %s' % (comp.datatype, [x.name for x in comp.children])
+            except Exception as e:
+                obs['positional-under-retyped-component'] = 'raises %s: %s' % (exc_class(e), e)
+        else:
+            obs['positional-under-retyped-component'] = new_dt
+        res.evaluations += 7
+        res.transitions += 14
+        res.validated += 6
+        for how in ('traversal-read', 'traversal-write', 'parse-tolerant', 'parse-strict', 'text-assignment', 'positional-under-retyped-component'):
             if obs[how] != new_dt:
                 res.violation('profile-ignored|subcomponent-datatype|%s|v%s' % (how, v), '%s.%s.%s of %s (v%s, host %s): created through %s has datatype %s, the profile says %s'
                               % (fr.name, cr.name, sr.name, seg, v, name, how, obs[how], new_dt), pt, 3)
@@ -666,6 +690,18 @@ def field_unit(v, seg, res):
             m = Message(name, version=v, reference=eprof)
             setattr(nav(m), fr.name.lower(), getattr(nav(std), fr.name.lower())[0])
             observed['element-copy-field'] = getattr(nav(m), fr.name.lower())[0].datatype
+            # (g) a stand-alone segment (built on the standard tables) added to the message with the profile: validation of
+            # the message judges it by the profile at every depth
+            from hl7apy.core import Segment
+            m = Message(name, version=v, reference=eprof)
+            par = m
+            for g in spath[:-1]:
+                par = par.add_group(g)
+            alone = Segment(seg, version=v)
+            setattr(alone, fr.name.lower(), '12')
+            par.add(alone)
+            want_err = 'Datatype %s is not correct for %s.%s ' % (fr.datatype, seg, fr.name)
+            observed['standalone-validated'] = new_dt if any(want_err in t for t in errs(m)) else 'not reported: %r' % [t for t in errs(m) if fr.name in t][:2]
             # standard run keeps the standard datatype
             observed['standard'] = getattr(nav(std), fr.name.lower())[0].datatype
         except Exception as e:
@@ -674,7 +710,8 @@ def field_unit(v, seg, res):
         res.evaluations += 8
         res.transitions += 16
         res.validated += 7
-        for how in ('traversal-read', 'traversal-write', 'add-helpers', 'parse', 'text-assignment', 'message-value', 'element-copy-segment', 'element-copy-field'):
+        for how in ('traversal-read', 'traversal-write', 'add-helpers', 'parse', 'text-assignment', 'message-value', 'element-copy-segment', 'element-copy-field',
+                    'standalone-validated'):
             if observed[how] != new_dt:
                 res.violation('profile-ignored|datatype|%s|%s' % (how, 'v' + v), '%s of %s (v%s, host %s): created through %s has datatype %s, the profile says %s'
                               % (fr.name, seg, v, name, how, observed[how], new_dt), pt, 3)
